@@ -338,12 +338,12 @@ impl Manip {
                         );
                         return false;
                     }
-                    Outcome::Err(e) => {
-                        ctx.violation(
-                            "a call satisfying the documented preconditions was refused",
-                            format!("{}/{}/refused/{}", prop, opname, c),
-                            detail(f, hist, e),
-                        );
+                    Outcome::Err(_) => {
+                        // The statement speaks of SUCCESSFUL calls: a library that validates more strictly than the
+                        // documentation asks for refuses this call without breaking it. Whether the refusal left a trace is
+                        // C06's business; the history ends here because the model has nothing to apply.
+                        ctx.count("calls_within_preconditions_refused_not_judged");
+                        ctx.count(&format!("refused_not_judged.{}", opname));
                         return false;
                     }
                     Outcome::NoneReturned if !matches!(op, Op::TextContentMut(..)) => {
